@@ -232,7 +232,16 @@ def gen_case(rng, i):
 
 
 def gen(rng, tier):
-    n = 2000 if tier == "quick" else 40000
+    """engine ribquery: expected = the property's answer (recorded findings show up here)"""
+    n = 400 if tier == "quick" else 4000
+    for i in range(n):
+        yield gen_case(rng, i)
+
+
+def gen_bulk(rng, tier):
+    """engine ribqueryx: expected = the property's answer, except where a recorded finding explains the
+    model's departure (then the model's answer), so any other disagreement is examined first"""
+    n = 2500 if tier == "quick" else 40000
     for i in range(n):
         yield gen_case(rng, i)
 
@@ -301,7 +310,10 @@ def known_signature(k, engine, case, mo, spec, im):
     return k.get("class") is not None and V.explained_by(mo, spec, im, {k.get("class")} | set(k.get("also", [])))
 
 
-ENGINES = [{"name": "ribquery", "gen": gen, "corpus": corpus, "nontrivial": nontrivial, "classify": classify, "shards": 8}]
+ENGINES = [
+    {"name": "ribqueryx", "gen": gen_bulk, "corpus": corpus, "nontrivial": nontrivial, "classify": classify, "shards": 8},
+    {"name": "ribquery", "gen": gen, "corpus": corpus, "nontrivial": nontrivial, "classify": classify, "shards": 8},
+]
 
 LEVEL_TEXT = ("Theorems over ALL RIB contents, attribute tables, ingress registers, limits and raw query strings: the JSON answer's data / lessSpecifics / "
               "moreSpecifics are exactly the stored unicast entries whose prefix equals / strictly covers / is strictly covered by the queried one and "
